@@ -266,8 +266,23 @@ func c07Macros(w *fw.W, idx int) {
 		}
 	}
 	useMacrolet := r.Chance(1, 4)
+	// macros of ANOTHER package (one of them without body forms), called from here: the
+	// expansion is evaluated in the caller's package and scope
+	otherPkg := r.Chance(1, 3)
+	if otherPkg {
+		g.feat["other-package-macros"] = true
+		calls = append(calls, sx.Call("c07util:cmt", g.argForm(), sx.I(1)), sx.Call("list", sx.Call("set", sx.QY("after-cmt"), sx.I(int64(r.Intn(50)))), sx.Y("user:after-cmt")),
+			sx.Call("c07util:wrap-once", g.argForm()), sx.Call("list", sx.Call("set", sx.QY("after-wrap"), sx.I(int64(r.Intn(50)))), sx.Y("user:after-wrap")))
+	}
 	build := func(viaExpand bool) []*sx.N {
 		var out []*sx.N
+		if otherPkg {
+			out = append(out, sx.Call("in-package", sx.QY("c07util")),
+				sx.Call("defmacro", sx.Y("cmt"), sx.L(sx.Y("&rest"), sx.Y("forms"))),
+				sx.Call("defmacro", sx.Y("wrap-once"), sx.L(sx.Y("x")), sx.Call("quasiquote", sx.Call("list", uq(sx.Y("x"))))),
+				sx.Call("export", sx.QY("cmt"), sx.QY("wrap-once")),
+				sx.Call("in-package", sx.QY("user")))
+		}
 		for _, d := range defs {
 			out = append(out, d.Clone())
 		}
